@@ -192,6 +192,7 @@ func (p PubSubBackend[Result]) ListenForNotifications(
 				}:
 					verifhook.At("requestreply.listen.sent", string(params.OperationID), "timeout")
 				default:
+					verifhook.At("requestreply.listen.final_skipped", string(params.OperationID), "timeout")
 				}
 				return
 			case notifyMsg, ok := <-notifyMsgs:
@@ -205,6 +206,7 @@ func (p PubSubBackend[Result]) ListenForNotifications(
 					}:
 						verifhook.At("requestreply.listen.sent", string(params.OperationID), "subclosed")
 					default:
+						verifhook.At("requestreply.listen.final_skipped", string(params.OperationID), "subclosed")
 					}
 					return
 				}
@@ -220,6 +222,7 @@ func (p PubSubBackend[Result]) ListenForNotifications(
 						verifhook.At("requestreply.listen.sent", string(params.OperationID), "unmarshal")
 					case <-ctx.Done():
 						// the caller is gone; the next iteration finishes the listener
+						verifhook.At("requestreply.listen.send_aborted", string(params.OperationID), "unmarshal")
 					}
 				} else if ok {
 					verifhook.At("requestreply.listen.before_send", string(params.OperationID), "reply")
@@ -231,6 +234,7 @@ func (p PubSubBackend[Result]) ListenForNotifications(
 					}:
 						verifhook.At("requestreply.listen.sent", string(params.OperationID), "reply")
 					case <-ctx.Done():
+						verifhook.At("requestreply.listen.send_aborted", string(params.OperationID), "reply")
 					}
 				}
 
